@@ -152,6 +152,40 @@ def run(prop, seed, budget, ctx):
         recursion.recursion_cache = orig_rc
         if orig_lock is not None: recursion._lock = orig_lock
         caches.clear(); is_recursive.cache_clear(); cache_mod.reset()
+    # (i-b) lazy initialisation of the method of a recursive reference (RecMethod): the top-level method is compiled first,
+    # then the threads deserialize, under generated schedules, the first data that reach the recursive reference; yield points
+    # are injected through a user aliaser, which the lazy compilation calls
+    def yal(name):
+        if state["sched"]: state["sched"].point()
+        return name
+    lazy_src = list(HEADER) + ["from apischema import schema", ""]
+    nl = 24 * budget
+    for i in range(nl):
+        lazy_src += ["@dataclass", f"class LN{i}:", "    value: int",
+                     f"    child: Optional['LN{i}'] = field(default=None, metadata=schema(min_props=1))", ""]
+    lmod = build_module(lazy_src, f"reclazy{seed}"); lns = dict(vars(lmod))
+    for i in range(nl):
+        LN = lns[f"LN{i}"]
+        datum = {"value": 1, "child": {"value": 2, "child": {"value": 3}}}
+        try: deserialize(LN, {"value": 0}, aliaser=yal)                      # compiles and caches the top-level method only
+        except Exception as e: hist["lazy-precompile-exc:" + type(e).__name__] += 1; continue
+        res = {}
+        def mk(name):
+            def fn():
+                try: res[name] = repr(deserialize(LN, datum, aliaser=yal))
+                except BaseException as e: res[name] = "EXC:" + type(e).__name__ + ":" + str(e)[:60]
+            return fn
+        schedule = [rnd.choice("AB") for _ in range(60)]
+        sched = Sched(schedule, tl); state["sched"] = sched
+        finished = sched.start({"A": mk("A"), "B": mk("B")})
+        state["sched"] = None
+        evaluations += 1; distinct.add(("lazy", i, "".join(schedule[:20])))
+        want = repr(deserialize(LN, datum, aliaser=yal))
+        if not finished or res != {"A": want, "B": want}:
+            failures.append({"kind": "P", "k_ok": True, "mode": "lazy-reference", "class": lazy_src[4 + 5 * i: 8 + 5 * i], "schedule": "".join(schedule),
+                             "results": res, "sequential": want, "deadlock": not finished, "yield_points": sched.steps,
+                             "why": ["concurrent-first-use-differs-from-sequential" if finished else "threads-did-not-finish"]})
+        hist["lazy-yield-points:%d" % min(sched.steps, 9)] += 1
     # (ii) stress on the unpatched package: real pre-emption
     old = sys.getswitchinterval(); sys.setswitchinterval(1e-6)
     try:
